@@ -84,6 +84,10 @@ type Expression interface {
 }
 
 func (q *Query) populateGroupBy(columns []string, sch *schema) error {
+	// start from an empty list on every execution: a Query value may be executed
+	// repeatedly, and on different indexes.
+	q.groupByFields = nil
+
 	for _, colName := range columns {
 		col, ok := sch.Columns[colName]
 		if !ok {
